@@ -20,6 +20,7 @@ type FuncReport struct {
 	Obls       int      `json:"obligations"`
 	Error      string   `json:"error,omitempty"`
 	Trusted    string   `json:"trusted,omitempty"`
+	Unclaimed  []string `json:"unproved_not_claimed,omitempty"`
 }
 
 // verifyFunc generates the obligations of one function under contract.
@@ -206,6 +207,12 @@ func (u *Universe) verifyFunc(fi *FuncInfo) (obls []*Obl, rep FuncReport) {
 		for k := range con.Skip {
 			if strings.HasPrefix(o.Kind, k) {
 				o.Kind = "skipped"
+			}
+		}
+		for _, uc := range con.Unclaimed {
+			if strings.Contains(o.Name, uc[0]) && o.Kind != "cover" {
+				o.Kind = "skipped"
+				rep.Unclaimed = append(rep.Unclaimed, o.Name+": "+uc[1])
 			}
 		}
 	}
